@@ -457,7 +457,7 @@ class GaussianEuclideanMetricSystem(EuclideanMetricSystem):
     def dh2_dmom(self, state: ChainState) -> ArrayLike:
         return self.metric.inv @ state.mom
 
-    @cache_in_state("mom")
+    @cache_in_state("pos")
     def dh2_dpos(self, state: ChainState) -> ArrayLike:
         return state.pos
 
